@@ -372,3 +372,12 @@ func run(raw json.RawMessage) (hx.Case, error) {
 	c.Nontrivial = len(pids) >= 2 && len(in.Ops) >= 4 && (nrev > 0 || nck > 0)
 	return c, nil
 }
+
+// SaveDTO returns the checkpoint DTO of a page table (used by the C27 harness).
+func SaveDTO(pt vm.PageTable) (uint64, []Entry, error) {
+	l, d, _, err := saveDTO(pt)
+	return l, d, err
+}
+
+// CoqDTO prints a DTO as a Coq term.
+func CoqDTO(d []Entry) string { return coqDTO(d) }
